@@ -174,6 +174,28 @@ CHECKS = {
              "quick": B(2500, 25), "thorough": B(100000, 250, 100)},
         ],
     },
+    "C09": {
+        "level": "fault_enumeration",
+        "rule": "corpus files are written in the same run by the real savers (Touchstone 1 / 2, NPD with multi-form lists, .vnacal with "
+                "1-2 calibrations and properties, YAML text). Enumerated per corpus file: truncation at every byte offset (the crash-"
+                "during-in-place-save model), a read error at every byte offset, substitution of every byte by each of 12 characters. "
+                "Seeded search: 1-5 simultaneous damages (bit flips, byte insert/delete, block zero/duplicate, line delete/duplicate, token "
+                "swap, number perturbation, random bytes) under random read fragmentation / buffer sizes / read faults, and raw random "
+                "bytes. evaluations = loads; non-trivial = runs that executed at least one damaged load; exhaustive refers to the three "
+                "enumerated families per corpus file (the corpus itself is a seeded sample)",
+        "assumptions": [
+            "failure = failure value, errno != 0, at least one single-line callback of a category other than INTERNAL when a callback "
+            "is installed, nothing left in the ledger; USAGE is tolerated as category (the statement's list is read as 'a non-zero documented errno')",
+            "success = type/dimension rule holds, calibration frequencies strictly ascending, every value readable; objects with only "
+            "finite values, >= 1 port and >= 1 frequency must survive save (NPD or vnacal, maximum precision) and re-load",
+            "every load runs under a 10 s CPU timer (hang detection); uninitialised-value reads are covered only as far as ASan/UBSan see them",
+        ],
+        "expected_probes": ["rejected", "accepted", "accepted_roundtrip"],
+        "subchecks": [
+            {"check": "C09.corrupt.enum", "what": "enumerated truncation / read error / byte substitution", "quick": B(60, 60, 1), "thorough": B(3000, 900, 1)},
+            {"check": "C09", "what": "seeded multi-fault damage and random bytes", "quick": B(12000, 45, 50), "thorough": B(1500000, 900, 200)},
+        ],
+    },
     "C12": {
         "level": "fault_enumeration",
         "rule": "scripts = short valid histories (no refused operations) generated by seed for the doc, array, array+files, cal and "
@@ -232,7 +254,6 @@ NOT_APPLICABLE = {
 # properties the design claims but whose check is not built yet (listed as not claimed until then)
 PLANNED = {
     "C03": "check under construction (chaos engine, DESIGN.md section 5); not claimed until it exists",
-    "C09": "check under construction (corrupt engine); not claimed until it exists",
     "C11": "check under construction (failure-seeking workloads); not claimed until it exists",
 }
 
@@ -303,6 +324,14 @@ MANIFEST_TEXT = {
         "design_ref": "DESIGN.md section 5 C07",
         "level_note": "trusts VnaWorld (to obtain real calibrations), DocModel and the apply-based comparison of error terms",
         "technique": "deterministic simulation: simulated disk + restart + stream/allocation faults, model equality after reload",
+    },
+    "C09": {
+        "level_text": "exhaustive enumeration of three single-fault families (truncation, read error, byte substitution at every offset) "
+                      "per corpus file plus seeded multi-fault search; the corpus files are a seeded sample",
+        "design_ref": "DESIGN.md section 5 C09",
+        "level_note": "storage faults applied on the simulated disk between save and load, stream faults through the cookie streams; "
+                      "oracle = clean failure or self-consistent, re-savable object; ledger and sanitizers for memory",
+        "technique": "deterministic simulation: storage/stream fault enumeration between save and load + seeded corruption search",
     },
     "C12": {
         "level_text": "exhaustive single-allocation-failure enumeration per script: every allocation libvna makes in a script is failed "
